@@ -29,7 +29,7 @@ ASSUMPTIONS = [
     "lines whose fragments the sampler cannot instantiate are skipped and counted (skipped_unsampled)",
 ]
 EXHAUSTIVE = {"quick": True, "thorough": True}
-FLOORS = {"quick": {"A_matches": 5000, "A_reverse": 2000, "B_rules": 150, "B_ignore_rules": 100, "B_ignore_case_rules": 100, "C_lines": 1500, "C_rows": 10000, "B_inline_flag_rules": 400, "B_nested_ignore_rules": 200},
+FLOORS = {"quick": {"A_matches": 5000, "A_reverse": 2000, "B_rules": 150, "B_ignore_rules": 100, "B_ignore_case_rules": 100, "C_lines": 1500, "C_rows": 10000, "B_inline_flag_rules": 400, "B_nested_ignore_rules": 200, "B_governing_rule_lookups": 8000, "B_implicit_completions": 60},
           "thorough": {"A_matches": 5000, "A_reverse": 2000, "B_rules": 150, "B_ignore_rules": 100, "B_ignore_case_rules": 100, "C_lines": 1500, "C_rows": 10000}}
 PREFIXES = ["undo", "no", "delete", "remove", "-"]
 VENDOR_BY_PREFIX = {"undo": "huawei", "no": "cisco", "delete": "juniper", "remove": "routeros", "-": "pc"}
@@ -352,6 +352,49 @@ def run_B(spec, acc):
                         if got != e:
                             acc.violation("C07/B/inline-ignore-case-flag/%s" % kind, "a rule written with the inline (?i) flag does not recognise its rows independently of letter case in the %s compiler" % kind,
                                           {"pattern": line, "row": r2, "vendor": vendor, "expected_key": e, "got_key": got})
+        # ... and where the compiled rules are applied to configuration lines: the rule that governs a line in a patching rulebook is the first
+        # one whose pattern matches it (case-insensitively for %ignore_case rules), with the key its placeholders bind
+        from annet.annlib.patching import _match_row_to_rules
+        full = compile_patching_text(text, vendor)
+        full_ic = compile_patching_text("\n".join(q + "  %ignore_case" for q in ipats), vendor)
+        for rules_c, plist, fl, tag_ in ((full, pats, "", "plain"), (full_ic, ipats, "(?i)", "ignore_case")):
+            for r in probe_rows[:70]:
+                for r2 in ((r,) if tag_ == "plain" else (r, r.upper(), r.title())):
+                    m_, _ = _match_row_to_rules(r2, rules_c)
+                    want = next((q for q in plist if R.match(fl + q, r2) is not None), None)
+                    got_rule = None if m_ is None else m_["raw_rule"]
+                    acc.count("B_governing_rule_lookups")
+                    ok = (want is None and got_rule is None) or (want is not None and got_rule is not None and " ".join(got_rule.replace("%ignore_case", "").split()) == " ".join(want.split()))
+                    if not ok:
+                        acc.violation("C07/B/governing-rule-lookup/%s" % tag_, "the rule found for a configuration line is not the first rule of the text whose pattern matches it",
+                                      {"row": r2, "vendor": vendor, "expected_rule": want, "got_rule": got_rule})
+                    elif want is not None and tuple(m_["key"]) != tuple(R.match(fl + want, r2)):
+                        acc.violation("C07/B/governing-rule-key/%s" % tag_, "the key extracted for a configuration line is not what the placeholders of its rule bind",
+                                      {"row": r2, "vendor": vendor, "rule": want, "expected_key": R.match(fl + want, r2), "got_key": list(m_["key"])})
+        # ... each %ignore_case rule on its own (in the shared text the placeholder-headed rules come first and take most lines)
+        for q in [q_ for q_ in ipats if "\t" not in q_ and "  " not in q_ and q_.split()[0].isalnum()][:30]:
+            alone = compile_patching_text(q + "  %ignore_case\n", vendor)
+            for r in probe_rows[:60]:
+                for r2 in (r, r.upper(), r.title()):
+                    m_, _ = _match_row_to_rules(r2, alone)
+                    e_ = R.match("(?i)" + q, r2)
+                    acc.count("B_governing_rule_lookups")
+                    if (m_ is None) != (e_ is None) or (m_ is not None and tuple(m_["key"]) != tuple(e_)):
+                        acc.violation("C07/B/governing-rule-lookup/ignore_case", "the rule found for a configuration line is not the first rule of the text whose pattern matches it",
+                                      {"row": r2, "vendor": vendor, "rule": q + " %ignore_case", "expected_key": e_, "got_key": None if m_ is None else list(m_["key"])})
+        # implicit rule texts: a plain rule with a nested default; every line it matches keeps its place and gets the nested default
+        for q in [q_ for q_ in ipats if "\t" not in q_ and "  " not in q_][:25]:
+            itree = implicit.compile_tree(syntax.parse_text("%s\n    zz-default 1\n" % q, {}))
+            rows_m = [r for r in probe_rows[:60] if R.match(q, r) is not None][:3]
+            if not rows_m:
+                continue
+            from collections import OrderedDict as _od
+            cfg = _od((r, _od()) for r in rows_m)
+            got_i = implicit.config(cfg, itree)
+            acc.count("B_implicit_completions")
+            if sorted(got_i) != sorted(rows_m) or any(list(got_i[r]) != ["zz-default 1"] for r in got_i):
+                acc.violation("C07/B/implicit-rule-applied-to-other-lines", "an implicit rule with a nested default does not complete exactly the lines its pattern matches",
+                              {"pattern": q, "vendor": vendor, "lines": rows_m, "completion": {k: list(v) for k, v in got_i.items()}})
     acc.sample({"shared_text_lines": pats[:8], "probe_rows": probe_rows[:8]})
     run_B_nested(acc)
 
